@@ -348,10 +348,17 @@ def evaluate(cases, results):
 # ------------------------------------------------------------------ known findings
 
 def load_known(prop):
-    if not os.path.exists(KNOWN):
-        return {}
-    data = json.load(open(KNOWN))
-    return {e["id"]: e for e in data.get("findings", []) if e.get("property") == prop}
+    """known_findings.json plus known_findings.d/*.json (same format), entries of this property."""
+    files = [KNOWN] if os.path.exists(KNOWN) else []
+    d = os.path.join(VERIF, "known_findings.d")
+    if os.path.isdir(d):
+        files += [os.path.join(d, fn) for fn in sorted(os.listdir(d)) if fn.endswith(".json")]
+    out = {}
+    for f in files:
+        for e in json.load(open(f)).get("findings", []):
+            if e.get("property") == prop:
+                out[e["id"]] = e
+    return out
 
 
 # ------------------------------------------------------------------ context / reporting
